@@ -321,7 +321,7 @@ pub fn register(l: &mut Vec<Obl>) {
     }
     hexcone!(obl, "_simd_path");
     hexcone!(oblf, "_scalar_path");
-    obl!(l; "c02_xyz_to_oklab", "C02", Tier::Thorough,
+    obl!(l; "c02_xyz_to_oklab", "C02", Tier::Open,
         "XYZ (D65) -> Oklab equals Ottosson's definition (M1, cube root, M2 with the published matrices) within 1e-3 for XYZ in [0, white] (palette re-derives M1 for its own D65, which differs from the published M1 by up to 1e-4 per entry)",
         ["<Oklab<T> as FromColorUnclamped<Xyz<D65,T>>>::from_color_unclamped", "oklab::m1", "oklab::m2"],
         [var("x", 0.0, 0.95047), var("y", 0.0, 1.0), var("z", 0.0, 1.08883)];
